@@ -315,3 +315,39 @@ Proof.
       match type of H with (if ?x then _ else _) = _ => destruct x; [discriminate|] end.
       injection H as <-. exists req, s, s'. cbn. tauto.
 Qed.
+
+(* ---------- statements used by Props/C17.v ---------- *)
+Lemma decrypted_checked c r o : parse_response c r = Ok o ->
+  Forall (fun a => assertion_facts c (r_irt r) a /\ (a_sig a = None \/ a_sig a = Some (Ok tt)) /\
+                   exists req s s', check_assertion c (r_irt r) req false s a = Ok s')
+         (decrypted_prefix (r_encrypted r)).
+Proof.
+  intros H. destruct (accepted_stage c r o H) as (req & s & s' & Hp & _).
+  destruct (parse_assertion_ok _ _ _ _ _ Hp) as (_ & _ & Hd & Hv).
+  apply verify_decrypted_ok in Hv. rewrite Forall_forall in *. intros a Ha.
+  destruct (Hd a Ha) as (sa & sa' & Hc). specialize (Hv a Ha). split; [eapply check_assertion_facts; exact Hc|]. split.
+  - destruct (a_sig a) as [[[]|e]|] eqn:Es; [now right|exfalso; exact (Hv e Es)|now left].
+  - rewrite (check_assertion_flag _ _ _ _ _ Hv) in Hc. now exists req, sa, sa'.
+Qed.
+
+Lemma reads_exactly_processed c r o : parse_response c r = Ok o ->
+  (forall n, In n (o_assertions o) <-> In n (map a_id (processed r))) /\
+  o_name_id o = last_name_id (r_assertions r ++ decrypted_prefix (r_encrypted r)) None.
+Proof.
+  intros H. destruct (accepted_stage c r o H) as (req & s & s' & Hp & _ & Hinc & Hn & -> & ->).
+  destruct (parse_assertion_reads _ _ _ _ _ Hp) as [A B]. rewrite A, B, Hn. split; [|reflexivity].
+  intros n. rewrite in_app_iff. split.
+  - intros [Hi|Hi]; [|exact Hi]. apply Hinc in Hi. unfold processed. rewrite map_app, in_app_iff. now left.
+  - intros Hi. now right.
+Qed.
+
+Lemma undecryptable_nothing c r o : parse_response c r = Ok o ->
+  r_assertions r = [] -> (forall e, In e (r_encrypted r) -> e_opens e = false) ->
+  o_assertions o = [] /\ o_name_id o = None.
+Proof.
+  intros H Ha He. destruct (reads_exactly_processed c r o H) as [Hin Hn].
+  assert (decrypted_prefix (r_encrypted r) = []) as Hd.
+  { destruct (r_encrypted r) as [|e encs]; [reflexivity|]. cbn. now rewrite (He e (or_introl eq_refl)). }
+  unfold processed in Hin. rewrite Ha, Hd in *. cbn in *. split; [|exact Hn].
+  destruct (o_assertions o) as [|n l]; [reflexivity|]. exfalso. apply (Hin n). now left.
+Qed.
